@@ -14,6 +14,7 @@ import (
 	"fmt"
 	"io"
 	"net"
+	"os"
 	"runtime"
 	"sync"
 	"sync/atomic"
@@ -52,6 +53,13 @@ type rigErr struct {
 }
 
 func (e *rigErr) Error() string { return fmt.Sprintf("scripted %s error for request %d", e.kind, e.id) }
+
+// rigTimeoutErr: a write that timed out (net.Error with Timeout() true), one object per failed attempt
+type rigTimeoutErr struct{ id uint32 }
+
+func (e *rigTimeoutErr) Error() string   { return fmt.Sprintf("scripted write timeout for request %d", e.id) }
+func (e *rigTimeoutErr) Timeout() bool   { return true }
+func (e *rigTimeoutErr) Temporary() bool { return true }
 
 // ---------------------------------------------------------------------------
 // streamGen: a RequestGenerator that emits n requests with unique ids (the id is the
@@ -239,13 +247,18 @@ type recRW struct {
 	mu       sync.Mutex
 	events   []*wireEvent
 	werrs    map[uint32]error
+	// tempKinds: failing writes fail the way a real socket does - EAGAIN / ENOBUFS (transmit queue full) /
+	// timeout for the first 1..5 attempts on that frame, or permanently; one error object per failed attempt
+	tempKinds bool
+	attempts  map[uint32]int
+	attErrs   map[error]uint32
 	nwrites  int32
 	reads    int32
 }
 
 func newRecRW(link oracle.Link, seed uint64, failPermille, delayMode int, clock *rigClock) *recRW {
 	return &recRW{link: link, seed: seed, failPermille: failPermille, delayMode: delayMode, clock: clock,
-		werrs: map[uint32]error{}, readCh: make(chan struct{})}
+		werrs: map[uint32]error{}, attempts: map[uint32]int{}, attErrs: map[error]uint32{}, readCh: make(chan struct{})}
 }
 
 // frameID extracts the request id (destination address) from a probe frame.
@@ -283,6 +296,27 @@ func (w *recRW) WritePacketData(pkt []byte) error {
 	}
 	if w.failPermille > 0 && int(rigHash(w.seed, id, 5)%1000) < w.failPermille {
 		ev.err = &rigErr{"write", id}
+		if w.tempKinds {
+			w.mu.Lock()
+			w.attempts[id]++
+			att := w.attempts[id]
+			w.mu.Unlock()
+			h6 := rigHash(w.seed, id, 6)
+			if kind := h6 % 4; kind != 0 {
+				if att > 1+int(h6/4%5) {
+					ev.err = nil
+				} else {
+					switch kind {
+					case 1:
+						ev.err = &os.SyscallError{Syscall: "sendto", Err: syscall.EAGAIN}
+					case 2:
+						ev.err = &rigTimeoutErr{id}
+					case 3:
+						ev.err = &os.SyscallError{Syscall: "sendto", Err: syscall.ENOBUFS}
+					}
+				}
+			}
+		}
 	}
 	// the caller's buffer must not have changed while the write was in progress
 	if len(pkt) != len(ev.data) {
@@ -299,6 +333,7 @@ func (w *recRW) WritePacketData(pkt []byte) error {
 	w.mu.Lock()
 	if ev.err != nil {
 		w.werrs[id] = ev.err
+		w.attErrs[ev.err] = id
 	}
 	ev.seqRet = w.clock.tick()
 	w.events = append(w.events, ev)
